@@ -8,6 +8,7 @@
 //!   many capacities and hasher seeds — at most one element, so the reference is an `Option`;
 //! * `zst-drop`: zero-sized elements WITH drop glue (`HashSet<Tok>`, `HashMap<Tok, ()>`, `HashMap<(), Tok>`,
 //!   `HashTable<Tok>`): tokens made minus tokens dropped equals tokens stored, at every step and at the end;
+//! * `long-probe`: tables of up to 16384 buckets filled to capacity with ONE hash (probe sequence coverage);
 //! * `zst-align`: zero-sized elements of alignment 8 / 64: every reference handed out is aligned for its type.
 //!
 //! One line per scenario: `scn <kind>-<seed>-<i> [ORACLE-XHASH(..)|ORACLE-ZST(..)]`. A scenario is replayed by
@@ -966,12 +967,54 @@ fn zst_align_one(rng: &mut Rng) -> Result<(), String> {
     Ok(())
 }
 
+// ---------------------------------------------------------------------------------------------------------
+// long probe sequences: a table of 4096 / 8192 / 16384 buckets filled to its capacity with elements of ONE hash —
+// the probe sequence of that hash has to reach 7/8 of all groups (quadratic probing covers every group of a
+// power-of-two table), every element must be found again, and an absent look-up must end at an EMPTY group.
+fn long_probe_one(rng: &mut Rng) -> Result<(), String> {
+    let cap = *rng.pick(&[3584usize, 7168, 7168, 14336]);
+    let h = rng.next();
+    let mut t: hashbrown::HashTable<u32> = hashbrown::HashTable::with_capacity(cap);
+    let asz = t.allocation_size();
+    for i in 0..cap as u32 {
+        t.insert_unique(h, i, |_| h);
+    }
+    if t.allocation_size() != asz || t.len() != cap {
+        return Err(format!("with_capacity({}) reallocated while being filled to its capacity", cap));
+    }
+    let calls = std::cell::Cell::new(0usize);
+    if t.find(h, |_| { calls.set(calls.get() + 1); false }).is_some() {
+        return Err("absent look-up found something".into());
+    }
+    // tag collisions only: at most every element once
+    if calls.get() != cap {
+        return Err(format!("absent look-up along a chain of {} equal hashes compared {} elements", cap, calls.get()));
+    }
+    if t.iter_hash(h).count() != cap {
+        return Err(format!("iter_hash visits {} of {} elements with that hash", t.iter_hash(h).count(), cap));
+    }
+    for probe in [0u32, cap as u32 / 2, cap as u32 - 1] {
+        if t.find(h, |&x| x == probe) != Some(&probe) {
+            return Err(format!("element {} of the chain is not found", probe));
+        }
+    }
+    // another hash with the same starting group and a different tag ends at once or after the chain
+    let other = h ^ (1 << 63);
+    if t.find(other, |_| true).is_some() {
+        return Err("a hash with another tag matched".into());
+    }
+    Ok(())
+}
+
 pub fn run(seed: u64, count: usize, prefix: &str) {
     use std::io::Write;
     let mut ops = std::io::BufWriter::new(std::fs::File::create(format!("{}.ops", prefix)).unwrap());
     let mut real = std::io::BufWriter::new(std::fs::File::create(format!("{}.real", prefix)).unwrap());
     for i in 0..count {
-        for (kind, tag) in [("xhash-sets", "XHASH"), ("xhash-maps", "XHASH"), ("zst", "ZST"), ("misc", "MISC"), ("xhash-clone-panic", "XHASH"), ("owning-fold", "MISC"), ("zst-drop", "ZST"), ("zst-align", "ZST")] {
+        for (kind, tag) in [("xhash-sets", "XHASH"), ("xhash-maps", "XHASH"), ("zst", "ZST"), ("misc", "MISC"), ("xhash-clone-panic", "XHASH"), ("owning-fold", "MISC"), ("zst-drop", "ZST"), ("zst-align", "ZST"), ("long-probe", "MISC")] {
+            if kind == "long-probe" && i % 40 != 0 {
+                continue;
+            }
             let mut rng = Rng::new(crate::tape::mix3(seed, i as u64, kind.len() as u64));
             let id = format!("scn extras-{}-{}-{}", kind, seed, i);
             writeln!(ops, "{}", id).unwrap();
@@ -983,6 +1026,7 @@ pub fn run(seed: u64, count: usize, prefix: &str) {
                 "owning-fold" => owning_fold_mixed(&mut rng),
                 "zst-drop" => zst_drop_one(&mut rng),
                 "zst-align" => zst_align_one(&mut rng),
+                "long-probe" => long_probe_one(&mut rng),
                 _ => zst_one(&mut rng),
             }));
             let verdict = match r {
